@@ -144,3 +144,37 @@ Example print_trim_samples :
   forallb (fun z => bytes_eqb (trim_space (Z_to_dec z)) (Z_to_dec z)) [0; 7; -7; 1200; -9223372036854775808; 9223372036854775807]%Z = true
   /\ forallb (fun f => bytes_eqb (trim_space (fmt_float f)) (fmt_float f)) [Flt 0 0; Flt 125 (-2); Flt (-5) (-1); Flt 12 3; Flt 125 (-6)] = true.
 Proof. split; vm_compute; reflexivity. Qed.
+
+(* ---- F28: the xpath_dynamic of a template reference is validated once ------------------------------ *)
+(* m: {xpath_dynamic: verif_join("/", [a, b]), template: t},  t: {object: {v: {xpath: "."}}} *)
+Definition arr_ab : decl := arr [cst "a"; cst "b"].
+Definition ds_f28 : list (bytes * decl) :=
+  [(FINAL_OUTPUT, obj None [("m", Decl None None None (Some (fn "verif_join" [cst "/"; arr_ab])) None [] false None
+                                       (Some (bs "t")) None None None false false)]);
+   (bs "t", obj None [("v", fld ".")])].
+
+(* validateTemplate before the repair handed the already validated xpath_dynamic to the expanded
+   copy, which validated it again in place: the computed children of every array / object /
+   custom_func below it were appended a second time *)
+Fixpoint dup_children (d : vdecl) : vdecl :=
+  let 'VD i x ks := d in
+  let ks' := map dup_children ks in
+  VD i (match x with Some q => Some (dup_children q) | None => None end)
+     (match p_kind (v_pub i) with KArray | KObject => ks' ++ ks' | _ => ks' end).
+Fixpoint legacy_double_validation (d : vdecl) : vdecl :=
+  let 'VD i x ks := d in
+  VD i (match x with Some q => Some (dup_children q) | None => None end) (map legacy_double_validation ks).
+
+(* <n><a><b>AB<a><b>ABAB</b></a></b></a></n> *)
+Definition doc_abab : tree := el "n" [el "a" [el "b" [tx "AB"; el "a" [el "b" [tx "ABAB"]]]]].
+
+Lemma f28_double_validation_differs :
+  exists top, validated ds_f28 = Some top /\ wf_b true top = true /\
+    Some (run_nocache doc_abab top []) = run_spec doc_abab ds_f28 [] /\
+    Some (run_nocache doc_abab (legacy_double_validation top) []) <> run_spec doc_abab ds_f28 [].
+Proof.
+  eexists. split; [vm_compute; reflexivity|].
+  split; [vm_compute; reflexivity|].
+  split; [vm_compute; reflexivity|].
+  vm_compute. intro H. discriminate H.
+Qed.
